@@ -127,7 +127,10 @@ DataCut(f, e, k) ==
   U32(Len(f) - k, e) \o U32(ds - k, e) \o SubSeq(f, 9, 32) \o SubSeq(f, 33, 32 + ds - k) \o SubSeq(f, 33 + ds, Len(f))
 DataCuts(f, e) ==
   IF ~HeaderOK(f, e) THEN {}
-  ELSE LET ds == Rd32(f, 4, e) IN { DataCut(f, e, k) : k \in 1..(IF ds < 14 THEN ds ELSE 14) }
+  ELSE LET ds == Rd32(f, 4, e)
+           \* every cut length of a small data region (each record and field of it ends the data once), the last 14 bytes of a large one
+           most == IF ds <= 400 THEN ds ELSE 14
+       IN { DataCut(f, e, k) : k \in 1..most }
 
 \* family: "bin_le" | "bin_be" | "pack" | "arc"
 EndianOf(family) == IF family = "bin_be" \/ family = "pack" THEN "be" ELSE "le"
